@@ -26,6 +26,7 @@ TEMPLATES = {
     "home/log.zot": "# t\n\n## HOME {{ date.strftime('%Y%m%d') }} ({{ kind }})\n",
     "tmpl/noblank.zot": "# header only, no blank line\n## never used\n",
     "tmpl/plain.zot": "# x\n\n##\n## plain {{ raw }}\n  ##\n##x\n",
+    "tmpl/ticket.zot": "# ticket\n\n## TICKET {{ id }}\n",
 }
 PATTERNS = [
     (r"^(?P<date>[0-9]{8})\.zo$", "tmpl/day.zot"),
@@ -37,13 +38,15 @@ PATTERNS = [
     (r"^(?P<raw>[0-9]{6})\.zo$", "tmpl/plain.zot"),
     (r".*_np\.zo$", "tmpl/noblank.zot"),
     (r"^prj/.*$", "tmpl/plain.zot"),
+    (r"^t/(?P<id>[0-9]+)\.zo$", "tmpl/ticket.zot"),       # purely numeric captures of any length
 ]
 TARGETS = ["20240105", "20240105.zo", "log/20240229", "work/20240105", "home/20240105", "work/20241305", "prj/alpha",
-           "prj/beta_x", "240105", "zzz", "sub/deep/none", "x_np", "prj/Alpha", "20240100", "home/20240105.zo"]
+           "prj/beta_x", "240105", "zzz", "sub/deep/none", "x_np", "prj/Alpha", "20240100", "home/20240105.zo",
+           "t/123456", "t/2024111", "t/20240105", "t/12", "123456", "t/202411", "t/1234567890"]
 
 
 def gen_case(rng):
-    pats = rng.sample(PATTERNS, rng.randint(0, 6))
+    pats = rng.sample(PATTERNS, rng.randint(0, 7))
     files = dict(TEMPLATES)
     existing = {}
     for t in rng.sample(TARGETS, rng.randint(0, 4)):
